@@ -1,9 +1,10 @@
-//@unit FD1V : FrameDecoder::decode_blocks on its verbatim body, for every source, every number of blocks and every strategy: the consumed-bytes counter grows by EXACTLY the bytes taken from the source (3 per header + body + 4 checksum bytes iff flagged), blocks are decoded strictly one after the other and counted, the strategy only decides when to return (at least one block per call; UptoBlocks(n): at most max(n,1); UptoBytes(n): the buffer grows by less than n + one maximum block = the C05 bound), `Ok(finished)` reports the last-block flag, the checksum is stored iff flagged, no counter overflow, termination
+//@unit FD1V : FrameDecoder::decode_blocks on its verbatim body, for every source, every number of blocks and every strategy: the consumed-bytes counter grows by EXACTLY the bytes taken from the source (3 per header + body + 4 checksum bytes iff flagged), blocks are decoded strictly one after the other and counted, the strategy only decides when to return (at least one block per call; UptoBlocks(n): at most max(n,1); UptoBytes(n): the buffer grows by less than n + one maximum block = the C05 bound), `Ok(finished)` reports the last-block flag, the checksum is stored iff flagged, no counter overflow, termination. FrameDecoder::decode_from_to (the slice-to-slice incremental call) on its verbatim body: it never reports more source bytes than it was given, the reported count is exactly the consumed-bytes counter's growth (also when it initialises the frame itself), a block body is decoded only when it is entirely present in the chunk, the `Bug in library` panics are unreachable, termination; is_finished on its verbatim body
 //@props C10,C05,C06,C03,C08
 //@tier quick
 //@profile rel
 //@assume callee contracts: BlockDecoder::read_block_header (Kani H1, complete: 3 bytes, header within the format's limits), BlockDecoder::decode_block_content (Kani B1 + Verus B2: Ok(n) => exactly n <= 128 KiB + 3 bytes taken from the source, the buffer only grows, by at most 128 KiB), FrameDescriptor::content_checksum_flag (H2), DecodeBuffer::len
 //@assume the reader is abstract: `avail()` = bytes still available; read_exact is std's contract (Ok => exactly buf.len() bytes taken). The content of the checksum bytes is not modelled here (u32::from_le_bytes is replaced by an abstract le_u32: the little-endian reading is checked by Kani FD1/FD4)
+//@assume in decode_from_to `mt_source[..4].try_into().expect(..)` is replaced by an abstract first4() (requires 4 bytes) and FrameDecoder::init / read are abstract with the contracts of Kani units FD4/H2 resp. D1/D2
 //@assume R-impl: the by-value `mut source: impl Read` is specialised to `source: &mut R` and the three `&mut source` arguments become `source` (every call site passes `&mut reader`)
 //@assume precondition: counter + bytes still available fit in u64 / usize (the counters count bytes / blocks actually read)
 //@assume fields of FrameDecoderState / FrameHeader / DecoderScratch that decode_blocks does not touch are omitted from the mirrored structs (struct-check pins the ones used)
@@ -12,12 +13,20 @@ verus! {
 
 global size_of usize == 8;
 
+#[verifier::external_body]
+pub fn vpanic() -> !
+    requires false,
+{ panic!() }
+
 //@const-check file=ruzstd/src/common/mod.rs text="pub const MAX_BLOCK_SIZE: u32 = 128 * 1024;"
 pub const MAX_BLOCK_SIZE: u32 = 128 * 1024;
 
 pub struct Error { pub k: u8 }
 pub trait Read {
     spec fn avail(&self) -> int;
+    /// ghost mode flag: the reader is a caller-provided chunk of an incremental (slice-to-slice) decode; running out of bytes in the
+    /// middle of a block would then turn "need more input" into a hard error, so a block body may only be decoded when it is entirely present
+    spec fn incremental() -> bool;
     fn read_exact(&mut self, buf: &mut [u8]) -> (r: Result<(), Error>)
         ensures
             final(buf)@.len() == old(buf)@.len(),
@@ -27,6 +36,19 @@ pub trait Read {
 }
 #[verifier::external_body]
 pub fn le_u32(b: [u8; 4]) -> (r: u32) { unimplemented!() }
+/// `s[..4].try_into().expect(..)`: the first four bytes as an array (slice -> array conversion is outside Verus' std specs)
+#[verifier::external_body]
+pub fn first4(s: &[u8]) -> (r: [u8; 4])
+    requires s@.len() >= 4,
+{ unimplemented!() }
+
+/// std / io_nostd: a byte slice is a reader that hands out its prefix and shrinks (Kani IO1 checks the no_std implementation)
+impl<'a> Read for &'a [u8] {
+    open spec fn avail(&self) -> int { self@.len() as int }
+    open spec fn incremental() -> bool { true }
+    #[verifier::external_body]
+    fn read_exact(&mut self, buf: &mut [u8]) -> (r: Result<(), Error>) { unimplemented!() }
+}
 
 #[derive(Clone, Copy, PartialEq, Eq)]
 pub enum BlockType { Raw, RLE, Compressed, Reserved }
@@ -39,7 +61,9 @@ pub enum FrameDecoderError {
     FailedToReadBlockHeader(BlockHeaderReadError),
     FailedToReadBlockBody(DecodeBlockContentError),
     FailedToReadChecksum(Error),
+    FailedToDrainDecodebuffer(Error),
     NotYetInitialized,
+    Other,
 }
 
 #[verifier::external_body]
@@ -91,6 +115,7 @@ impl BlockDecoder {
     /// B1 (Kani) / B2 (Verus): the block body
     #[verifier::external_body]
     pub fn decode_block_content<R: Read>(&mut self, header: &BlockHeader, workspace: &mut DecoderScratch, source: &mut R) -> (res: Result<u64, DecodeBlockContentError>)
+        requires R::incremental() ==> old(source).avail() >= header.content_size,
         ensures
             final(source).avail() <= old(source).avail(),
             final(workspace).buffer.spec_len() >= old(workspace).buffer.spec_len(),
@@ -102,11 +127,87 @@ impl BlockDecoder {
 pub open spec fn max1(n: int) -> int { if n < 1 { 1 } else { n } }
 
 impl FrameDecoder {
+    /// FD4 / H2 / H4 (Kani): a successful init installs a fresh state whose consumed-bytes counter is exactly the header bytes taken
+    #[verifier::external_body]
+    pub fn init<R: Read>(&mut self, source: &mut R) -> (r: Result<(), FrameDecoderError>)
+        ensures
+            final(source).avail() <= old(source).avail(),
+            r is Ok ==> final(self).state is Some
+                && final(self).state->0.bytes_read_counter == old(source).avail() - final(source).avail()
+                && !final(self).state->0.frame_finished && final(self).state->0.check_sum is None && final(self).state->0.block_counter == 0,
+    { unimplemented!() }
+    /// D1/D2 (Kani): draining touches only the decode buffer
+    #[verifier::external_body]
+    pub fn read(&mut self, target: &mut [u8]) -> (r: Result<usize, Error>)
+        ensures
+            final(target)@.len() == old(target)@.len(),
+            r matches Ok(n) ==> n <= old(target)@.len(),
+            final(self).state is Some <==> old(self).state is Some,
+            old(self).state matches Some(s0) ==> ({
+                let s1 = final(self).state->0;
+                s1.bytes_read_counter == s0.bytes_read_counter && s1.block_counter == s0.block_counter && s1.frame_finished == s0.frame_finished
+                && s1.check_sum == s0.check_sum && s1.using_dict == s0.using_dict && s1.frame_header == s0.frame_header
+            }),
+    { unimplemented!() }
+
+//@extract file=ruzstd/src/decoding/frame_decoder.rs impl="^impl FrameDecoder" fn=is_finished
+//@spec
+        ensures r == self.spec_is_finished(),
+//@end
+
+    pub open spec fn spec_is_finished(&self) -> bool {
+        match self.state {
+            None => true,
+            Some(s) => if s.frame_header.descriptor.spec_checksum_flag() { s.frame_finished && s.check_sum is Some } else { s.frame_finished },
+        }
+    }
+
+#[verifier::loop_isolation(false)]
+//@extract file=ruzstd/src/decoding/frame_decoder.rs impl="^impl FrameDecoder" fn=decode_from_to rewrite="decoding::block_decoder::new()=>block_decoder_new()||mt_source[..4].try_into().expect(\"optimized away\")=>first4(mt_source)||u32::from_le_bytes(chksum)=>le_u32(chksum)"
+//@spec
+        requires
+            source@.len() <= usize::MAX,      // true of every slice; stated because the spec-level length is unbounded
+            old(self).state matches Some(st) ==> st.bytes_read_counter + source@.len() <= u64::MAX && st.block_counter + source@.len() <= usize::MAX
+                && st.decoder_scratch.buffer.spec_len() >= 0,
+        ensures
+            r matches Ok(rw) ==> ({
+                let read = rw.0;
+                let written = rw.1;
+                // never more than it was given, and exactly what the consumed-bytes counter says
+                &&& read <= source@.len() && written <= old(target)@.len()
+                &&& final(self).state is Some
+                &&& (old(self).state matches Some(s0) ==> final(self).state->0.bytes_read_counter - s0.bytes_read_counter == read)
+                &&& (old(self).state is None ==> final(self).state->0.bytes_read_counter == read)
+            }),
+//@ghost before="loop {"
+                let ghost cm0 = state.bytes_read_counter as int;
+                let ghost lm0 = mt_source@.len() as int;
+                let ghost bm0 = state.block_counter as int;
+                proof {
+                    if old(self).state is None {
+                        assert(cm0 == source@.len() - lm0);
+                        assert(bm0 == 0);
+                    } else {
+                        assert(lm0 == source@.len());
+                        assert(cm0 == old(self).state->0.bytes_read_counter);
+                        assert(bm0 == old(self).state->0.block_counter);
+                    }
+                }
+//@loop 1
+                    invariant
+                        mt_source@.len() <= lm0,
+                        state.bytes_read_counter - cm0 == lm0 - mt_source@.len(),
+                        state.block_counter >= bm0, 3 * (state.block_counter - bm0) <= lm0 - mt_source@.len(),
+                        cm0 + lm0 <= u64::MAX, bm0 + lm0 <= usize::MAX,
+                    decreases mt_source@.len(),
+//@end
+
 #[verifier::loop_isolation(false)]
 //@extract file=ruzstd/src/decoding/frame_decoder.rs impl="^impl FrameDecoder" fn=decode_blocks sigrewrite="mut source: impl Read=>source: &mut R||pub fn decode_blocks(=>fn decode_blocks<R: Read>(" rewrite="decoding::block_decoder::new()=>block_decoder_new()||.read_block_header(&mut source)=>.read_block_header(source)||&mut state.decoder_scratch, &mut source)=>&mut state.decoder_scratch, source)||u32::from_le_bytes(chksum)=>le_u32(chksum)"
 //@spec
         requires
             old(source).avail() >= 0,
+            !R::incremental(),      // the streaming entry point: a truncated source is an error (C10), not "need more"
             old(self).state matches Some(st) ==> st.bytes_read_counter + old(source).avail() <= u64::MAX && st.block_counter + old(source).avail() <= usize::MAX
                 && st.decoder_scratch.buffer.spec_len() >= 0
                 && !st.frame_finished,        // callers ask is_finished() first (SD1, FD3); a finished frame has no next block
